@@ -120,3 +120,44 @@ pub open spec fn cg_unvisited<N, E>(g: DiGraph<N, E>, root: NodeIndex, vis: Set<
 pub open spec fn cg_stack_in_universe<N, E>(g: DiGraph<N, E>, root: NodeIndex, stack: Seq<NodeIndex>) -> bool {
     forall |k: int| 0 <= k < stack.len() ==> cg_universe(g, root).contains(#[trigger] stack[k])
 }
+
+// ---- the final step: the tids of the edges in both edge sets -----------------------------------------------------
+
+/// `r` is the set of the tids of the edges in both `a` and `b`  (what the final chain
+/// `A.iter().filter_map(|edge| if B.contains(edge) { Some(G[*edge].tid.clone()) } else { None }).collect()` must compute;
+/// PROVED for the loop that evaluates the closure body per element: lemma_cg_collected_common)
+pub open spec fn cg_common_tids<'a, N>(g: DiGraph<N, &'a Term<Jmp>>, a: Set<EdgeIndex>, b: Set<EdgeIndex>, r: Set<Tid>) -> bool {
+    forall |t: Tid| #[trigger] r.contains(t) <==>
+        exists |e: EdgeIndex| a.contains(e) && b.contains(e) && t == (#[trigger] g.edge_weight(e.i as int)).tid
+}
+
+/// what the closure of the final chain must return for the element `e` of the iterated set: the tid of `e` when `e` is an
+/// edge of both sets, nothing otherwise.  (Symmetric in `a` and `b`.)
+pub open spec fn cg_keep<'a, N>(g: DiGraph<N, &'a Term<Jmp>>, a: Set<EdgeIndex>, b: Set<EdgeIndex>, e: EdgeIndex) -> Option<Tid> {
+    if a.contains(e) && b.contains(e) { Some(g.edge_weight(e.i as int).tid) } else { None }
+}
+
+/// entry `k` of the iteration `it` is an edge of both sets and carries the tid `t`
+pub open spec fn cg_hit<'a, N>(g: DiGraph<N, &'a Term<Jmp>>, it: Seq<&EdgeIndex>, k: int, a: Set<EdgeIndex>, b: Set<EdgeIndex>, t: Tid) -> bool {
+    0 <= k < it.len() && a.contains(*it[k]) && b.contains(*it[k]) && t == g.edge_weight((*it[k]).i as int).tid
+}
+
+/// invariant of the collecting loop: after the first `idx` entries of `it`, `r` holds exactly the tids of those
+/// entries that are edges of both sets.  (Symmetric in `a` and `b`: it does not say which set is iterated.)
+pub open spec fn cg_collected<'a, N>(g: DiGraph<N, &'a Term<Jmp>>, it: Seq<&EdgeIndex>, idx: int, a: Set<EdgeIndex>, b: Set<EdgeIndex>, r: Set<Tid>) -> bool {
+    forall |t: Tid| #[trigger] r.contains(t) <==> exists |k: int| k < idx && #[trigger] cg_hit(g, it, k, a, b, t)
+}
+
+/// the iterated set `s` is one that contains every edge of both `a` and `b` (true for `a` and for `b`)
+pub open spec fn cg_covers(s: Set<EdgeIndex>, a: Set<EdgeIndex>, b: Set<EdgeIndex>) -> bool {
+    forall |e: EdgeIndex| a.contains(e) && b.contains(e) ==> #[trigger] s.contains(e)
+}
+
+// ---- the node lookup of the public wrapper ------------------------------------------------------------------------
+
+/// `r` is the first node of `g` (in index order) whose weight is `w`.
+pub open spec fn cg_first_node_with<N, E>(g: DiGraph<N, E>, w: N, r: NodeIndex) -> bool {
+    &&& r.i < g.node_count_spec()
+    &&& g.node_weight(r.i as int) == w
+    &&& forall |j: int| 0 <= j < r.i ==> #[trigger] g.node_weight(j) != w
+}
